@@ -59,6 +59,7 @@ GenDescs3 == {GenD1, GenD2, GenD3}
 GIdentsQ == {<<"m1", "value">>, <<"m1", "">>, <<"m2", "">>, <<"m2", "x">>, <<"m1", "cmd">>, <<"zz", "value">>}
 GIdentsC == {<<"m1", "value">>}                      \* callback-focused generation
 GLevelsC == {NodeL, <<"m1", "">>, <<"m1", "value">>}
+GLevelsE == {NodeL}                                   \* error class sweep
 GLevelsQ == {NodeL, <<"m1", "">>, <<"m1", "value">>, <<"m2", "x">>}
 GIdentsM == GIdentsQ \cup {<<"m2", "target">>, <<"m1", "target">>, <<"m2", "value">>}
 GIdentsT == Idents
